@@ -51,11 +51,18 @@ type worldConfig struct {
 	// that one size class queue holds invocations with both directly
 	// queued operations and queued child invocations (C04: direct
 	// operations go first).
-	MixedDepth bool        `json:"mixed_depth,omitempty"`
-	RetryCount int         `json:"retry_count"`
-	NActions   int         `json:"n_actions"`
-	NWorkers   int         `json:"n_workers"`
-	Routers    []queueSpec `json:"routers,omitempty"` // only Prefix and Platform are used
+	MixedDepth bool `json:"mixed_depth,omitempty"`
+	// WorkerClasses, if set, overrides the size class worker i announces.
+	// In a predeclared platform queue a class that is not predeclared but
+	// below the maximum creates a removable size class queue of its own
+	// (the list handed to the selector grows and shrinks with it); a class
+	// above the maximum, or class 0 where size classes are in use, must
+	// be refused.
+	WorkerClasses []uint32    `json:"worker_classes,omitempty"`
+	RetryCount    int         `json:"retry_count"`
+	NActions      int         `json:"n_actions"`
+	NWorkers      int         `json:"n_workers"`
+	Routers       []queueSpec `json:"routers,omitempty"` // only Prefix and Platform are used
 }
 
 const (
@@ -135,6 +142,8 @@ type workerSim struct {
 	id        map[string]string
 	queue     int
 	sizeClass uint32
+
+	reject string // not empty: the scheduler has to refuse this worker (reason)
 
 	believes *remoteworker.DesiredState_Executing // nil = idle
 	inFlight *syncResult
@@ -308,11 +317,21 @@ func newWorld(rt *rapid.T, cfg worldConfig) *world {
 		qi := i % len(cfg.Queues)
 		q := cfg.Queues[qi]
 		sc := q.SizeClasses[(i/len(cfg.Queues))%len(q.SizeClasses)]
+		reject := ""
+		if i < len(cfg.WorkerClasses) && q.Predeclared {
+			sc = cfg.WorkerClasses[i]
+			if max := q.SizeClasses[len(q.SizeClasses)-1]; sc > max {
+				reject = "size class above the predeclared maximum"
+			} else if max > 0 && sc < 1 {
+				reject = "no size class although the platform queue uses them"
+			}
+		}
 		w.workers = append(w.workers, &workerSim{
 			idx:       i,
 			id:        map[string]string{"host": fmt.Sprintf("w%d", i), "pool": fmt.Sprintf("p%d", i%2)},
 			queue:     qi,
 			sizeClass: sc,
+			reject:    reject,
 		})
 	}
 	w.m = newModel(w)
